@@ -7,6 +7,8 @@ out=$(mktemp -d /root/baseline.XXXX)
 (cd "$REPO" && go test -mod=mod -json -vet=off -count=1 -timeout 25m ./... > "$out/run.json" 2> "$out/err.log")
 python3 - "$out/run.json" <<'EOF'
 import json, sys
+import re
+norm = lambda s: re.sub(r"0x[0-9a-f]+", "0xADDR", s)
 passed = set()
 for l in open(sys.argv[1], errors="replace"):
     try:
@@ -14,9 +16,9 @@ for l in open(sys.argv[1], errors="replace"):
     except Exception:
         continue
     if d.get("Action") == "pass" and d.get("Test"):
-        passed.add(d["Package"] + "::" + d["Test"])
+        passed.add(norm(d["Package"] + "::" + d["Test"]))
 want = json.load(open("/root/.vp/BASELINE.json"))["stable_pass"]
-missing = [t for t in want if t not in passed]
+missing = [t for t in want if norm(t) not in passed]
 print("stable_pass:", len(want), "passed now:", len(want) - len(missing), "missing:", len(missing))
 for t in missing[:50]:
     print("  NOT PASSING:", t)
